@@ -1,6 +1,7 @@
 """C01  Every parse result is a valid derivation of the user's grammar (ak/llparser.py)"""
 import random
 
+from harness.lib import sx as SX
 from harness.props import llp_common as L
 
 ID = "C01"
@@ -9,7 +10,7 @@ COQ_DIR = "C01"
 EXTRA_COQ_DIRS = ["LLP"]
 RUN_MOD = L.RUN_MOD
 MODEL_TARGETS = ["C01/Run.vo"]
-PROOF_TARGETS = ["C01/Lemmas.vo"]
+PROOF_TARGETS = ["C01/Basics.vo", "C01/Lemmas.vo", "C01/LemmasFact.vo", "C01/LemmasTable.vo", "C01/LemmasTop.vo"]
 PROPS = ["C01/Props.v"]
 ALLOWED_AXIOMS = []
 IMPL_TIMEOUT = 20.0
@@ -30,12 +31,48 @@ MODELLED = ("ak/llparser.py: _create_productions (plain), _factorize_productions
             "_calc_follow_sets, _make_llone_table, _verify_grammar_structure_part2, the main loop of parse incl. suffix splicing and roll-back")
 
 
+def _mutate_for_c01(rng, g):
+    """extra shapes on top of L.gen_grammar: an alternative sharing its first symbols with a NON-adjacent
+    earlier one (not factorized -> the table offers several productions -> roll-back after children were
+    collected), an alternative that is a proper prefix of / equal to a factorized one (nullable remainder),
+    a third member for an existing common-prefix group (nested groups)"""
+    prods = [[nt, [list(a) for a in alts]] for nt, alts in g["prods"]]
+    for _ in range(rng.randint(0, 2)):
+        nt, alts = rng.choice(prods)
+        cands = [a for a in alts if a]
+        if not cands or len(alts) >= 6:
+            continue
+        src = rng.choice(cands)
+        k = rng.randint(1, len(src))
+        tail = [rng.choice(g["terms"]) for _ in range(rng.randint(0, 2))]
+        new = src[:k] + tail
+        r = rng.random()
+        if r < 0.45:
+            # non-adjacent: put it at the far end, behind an alternative with a different first symbol
+            if alts[-1] and alts[-1][0] == new[0]:
+                alts.append([rng.choice(g["terms"])])
+            alts.append(new)
+        elif r < 0.8:
+            # adjacent: joins (or creates) a common-prefix group, possibly nested
+            alts.insert(alts.index(src) + 1, new)
+        else:
+            alts.insert(alts.index(src), src[:k])
+    g2 = dict(g)
+    g2["prods"] = prods
+    return g2
+
+
 def gen_cases(rng, tier):
     n = 1500 if tier == "thorough" else 220
     cases = []
-    for _ in range(n):
+    for i in range(n):
         g = L.gen_grammar(rng, allow_leftrec=0.08)
-        cases.append({"g": g, "inputs": L.gen_inputs(rng, g, 12)})
+        if rng.random() < 0.5:
+            g = _mutate_for_c01(rng, g)
+        c = {"g": g, "inputs": L.gen_inputs(rng, g, 12)}
+        if tier == "thorough" or i % 10 == 0:
+            c["diag"] = True      # also compare prods_map / _suffix_symbols themselves
+        cases.append(c)
     return cases
 
 
@@ -47,9 +84,125 @@ def kind(case):
     return f"prefix={int(has_prefix)} empty={int(has_empty)} smart={int(g['smart'])}"
 
 
-impl_run = L.impl_run
-coq_case = L.coq_case
-expected_sx = L.expected_sx
+# ------------------------------------------------------------------ implementation side
+def impl_run(case):
+    """L.impl_run + the factorized grammar (prods_map, _suffix_symbols) of the constructed parser"""
+    from ak import llparser
+    g = case["g"]
+    prods = {nt: [tuple(a) if a else None for a in alts] for nt, alts in g["prods"]}
+    try:
+        p = llparser.LLParser(L.tokenizer_str(g["terms"]), productions=prods,
+                              start_symbol_name=g["start"], smart_factorization=g["smart"])
+    except BaseException as e:  # noqa
+        if type(e).__name__ == "Hang":
+            raise
+        return {"ctor": ["err", SX.exc_name(e)]}
+    out = {"ctor": ["ok"], "amb": bool(p.is_ambiguous()), "res": [],
+           "fg": [[s, [[r.symbol, list(r.production), r.sort_n] for r in rr]] for s, rr in p.prods_map.items()],
+           "sfxs": sorted(p._suffix_symbols),
+           "terminals": sorted(p.terminals)}
+    for inp in case["inputs"]:
+        text = " ".join(v for _, v in inp)
+        try:
+            t = p.parse(text, do_cleanup=False)
+            out["res"].append(["ok", L.tree_obs(t)])
+        except llparser.Error as e:
+            out["res"].append(["err", SX.exc_name(e)])
+        except BaseException as e:  # noqa
+            if type(e).__name__ == "Hang":
+                out["res"].append(["err", "Hang"])
+                out["hang_at"] = len(out["res"]) - 1
+                while len(out["res"]) < len(case["inputs"]):
+                    out["res"].append(["err", "NotRun"])
+                return out
+            out["res"].append(["err", SX.exc_name(e)])
+    return out
+
+
+# ------------------------------------------------------------------ validator of the factorization (Python re-implementation)
+def py_fact_problems(uprods, start, fg, sfxs, terminals):
+    """The hypotheses of parse_sound_build checked on the IMPLEMENTATION's prods_map / _suffix_symbols,
+    written independently of coq/C01/Spec.v fact_ok: -> list of problems (empty = validated)
+
+    uprods: [[symbol, [alternative, ...]], ...] as the user wrote them;  fg: [[symbol, [[rule symbol, production, sort_n], ...]], ...]"""
+    problems = []
+    sfx = set(sfxs)
+    user = [nt for nt, _ in uprods]
+    rules = {}
+    for s, rr in fg:
+        if s in rules:
+            problems.append(f"symbol {s!r} occurs twice in prods_map")
+        rules[s] = [list(r[1]) for r in rr]
+        for r in rr:
+            if any(x in sfx for x in r[1][:-1]):
+                problems.append(f"suffix symbol inside production {s!r} -> {r[1]}")
+    for nt in user:
+        if nt in sfx:
+            problems.append(f"user symbol {nt!r} is also a suffix symbol")
+    for s in sfx:
+        if s in terminals:
+            problems.append(f"suffix symbol {s!r} is a terminal")
+    if start not in user:
+        problems.append(f"start symbol {start!r} is not one of the user's symbols")
+    if [s for s, _ in fg if s not in sfx] != user:
+        problems.append(f"non-suffix symbols of prods_map {[s for s, _ in fg if s not in sfx]} differ from the user's {user}")
+
+    def expansions(prod, above):
+        if prod and prod[-1] in sfx:
+            g = prod[-1]
+            if g in above:
+                raise ValueError(f"suffix symbol {g!r} refers to itself")
+            if g not in rules:
+                raise ValueError(f"suffix symbol {g!r} has no productions")
+            out = []
+            for tail in rules[g]:
+                for e in expansions(tail, above | {g}):
+                    out.append(list(prod[:-1]) + e)
+            return out
+        return [list(prod)]
+
+    want = {nt: [list(a) for a in alts] for nt, alts in uprods}
+    for s, _ in fg:
+        if s in sfx:
+            continue
+        try:
+            got = [e for r in rules[s] for e in expansions(r, frozenset())]
+        except ValueError as e:
+            problems.append(str(e))
+            continue
+        if got != want.get(s, []):
+            problems.append(f"productions of {s!r} expand to {got}, the user wrote {want.get(s, [])}")
+    return problems
+
+
+def _diag(case):
+    return bool(case.get("diag"))
+
+
+def coq_case(case, obs):
+    # "Grammar ..." -> "GrammarV <diag> ..."
+    base = L.coq_case(case, obs)
+    assert base.startswith("Grammar ")
+    return "GrammarV " + SX.cbool(_diag(case)) + base[len("Grammar"):]
+
+
+def expected_sx(case, obs):
+    if obs["ctor"][0] == "err":
+        return SX.dumps(SX.err(obs["ctor"][1]))
+    res = []
+    for r in obs["res"]:
+        res.append(SX.ok(L.tree_sx(r[1])) if r[0] == "ok" else SX.err(r[1]))
+    g = case["g"]
+    hyps = not py_fact_problems(g["prods"], g["start"], obs["fg"], obs["sfxs"], obs["terminals"])
+    diag = []
+    if _diag(case):
+        diag = [[[SX.s(s), [[SX.s(r[0]), [SX.s(x) for x in r[1]], r[2]] for r in rr]] for s, rr in obs["fg"]],
+                [SX.s(x) for x in sorted(obs["sfxs"])]]
+    return SX.dumps([0, obs["amb"], hyps, diag, res])
+
+
+def _reserved_names(g):
+    return "__" in g["start"] or any("__" in s for _, alts in g["prods"] for a in alts for s in a)
 
 
 def oracle(case, obs):
@@ -60,12 +213,25 @@ def oracle(case, obs):
         return out
     g = case["g"]
     prods = {nt: alts for nt, alts in g["prods"]}
+    # a user grammar that mentions a reserved helper name is the known finding, anything else is new
+    sig_tree = "helper-name-in-user-grammar" if _reserved_names(g) else "invalid-tree"
     for inp, r in zip(case["inputs"], obs["res"]):
         if r[0] == "ok":
             probs = L.check_derivation(prods, g["start"], r[1], inp)
             if probs:
-                out.append(("invalid-tree", f"grammar {g['prods']} start {g['start']} smart={g['smart']} input {inp}: " + "; ".join(probs[:3])))
-    return out[:3]
+                out.append((sig_tree, f"grammar {g['prods']} start {g['start']} smart={g['smart']} input {inp}: " + "; ".join(probs[:3])))
+    if not _reserved_names(g):
+        probs = py_fact_problems(g["prods"], g["start"], obs["fg"], obs["sfxs"], obs["terminals"])
+        if probs:
+            out.append(("factorization-invalid", f"grammar {g['prods']} smart={g['smart']}: prods_map {[(s, [r[1] for r in rr]) for s, rr in obs['fg']]} "
+                        f"suffix symbols {obs['sfxs']}: " + "; ".join(probs[:3])))
+    # at most one report per signature
+    seen, res = set(), []
+    for sig, msg in out:
+        if sig not in seen:
+            seen.add(sig)
+            res.append((sig, msg))
+    return res
 
 
 def nontrivial(case, obs):
